@@ -3,8 +3,8 @@
 set -e
 cd "$(dirname "$0")/.."
 export CARGO_NET_OFFLINE=true
-(cd harness && cargo build --release --offline)
-(cd harness-alloc && cargo build --release --offline)
+# builds harness/ and harness-alloc/ (release, offline) and records the content hash of /repo they were built from
+./check --build
 if false; then
   sh fuzz/build.sh || echo "fuzz targets not built (thorough-tier fuzz phase will be skipped)"
 fi
